@@ -600,6 +600,11 @@ def ResolveBinaryExpressionType(
                 VectorType(Integer(), left.GetComponentCount()),
                 [baseType, baseType],
             )
+        if left.IsMatrix() and right.IsMatrix():
+            assert isinstance(left, MatrixType)
+            return ExpressionType(
+                left.WithComponentType(Integer()), [baseType, baseType]
+            )
         return ExpressionType(Integer(), [baseType, baseType])
 
     # Multiply and divide have special rules -- matrices, vectors and scalars
